@@ -67,6 +67,8 @@ def const_expr(c):
     if "uneval" in c:
         v = c.get("val")
         inner = const_expr(v) if v else ("c", c.get("ty", "?"), None)
+        if c.get("promoted"):
+            return inner  # promoted temporaries have no name of their own: show the value
         return ("cn", c["uneval"], inner)
     ty = c.get("ty", "?")
     if "int" in c:
@@ -205,6 +207,11 @@ class Walker:
                         return ("resid", base[1])
                 if base[0] == "poll" and vname == "Ready":
                     return ("await", base[1], base[2])
+            if e[0] in ("c", "cn") and i == 0 and isinstance(const_val(e), int):
+                # field 0 of a scalar newtype constant (e.g. `StatusCode::MIN.0`, `VarInt::MAX.0`)
+                if e[0] == "cn":
+                    return ("cn", e[1] + ".0", e[2])
+                return e
             if e[0] == "p" and e[1] == 1 and i in self.upnames:
                 return ("up", i, self.upnames[i])
             if e[0] == "deref" and isinstance(e[1], tuple) and e[1][0] == "p" and e[1][1] == 1 and i in self.upnames:
@@ -265,6 +272,8 @@ class Walker:
             ops = tuple(self.operand(st, o) for o in rv["ops"])
             ak = rv["ak"]
             if ak == "adt":
+                if not rv["adt"].startswith("std::"):
+                    st["events"].append(("agg", rv["adt"], rv["variant"], ops, bi, len(st["atoms"])))
                 return ("agg", "adt", rv["adt"], rv["variant"], rv["vi"], ops)
             if ak in ("closure", "coroutine", "corclosure"):
                 return ("agg", ak, rv["did"], "", 0, ops)
@@ -413,7 +422,7 @@ class Walker:
                 pass
         else:
             val = ("call", name, args, bi)
-            st["events"].append(("call", name, args, bi, loc_of(at), f))
+            st["events"].append(("call", name, args, bi, loc_of(at), f, len(st["atoms"])))
         if t["t"] is None:
             # diverging call (panic etc.)
             self._finish(st, ("panic", name, args, loc_of(at), tuple(macs)))
